@@ -238,7 +238,7 @@ class Spec(PropSpec):
     props_file = "C05.v"
     theorems = ["c05_step_advances", "c05_consistent", "c05_monotone", "c05_crash_bounce_neutral", "c05_window",
                 "c05_window_scripted", "c05_timer_exact", "c05_lockstep_reached", "c05_wtick_whole",
-                "c05_tokio_sleep_exact", "c05_timer_exact_refuted", "c05_failed_step_refuted", "c05_nonvacuous"]
+                "c05_tokio_sleep_exact", "c05_timer_exact_scripted", "c05_timer_exact_refuted", "c05_failed_step_refuted", "c05_nonvacuous"]
     coq_targets = ["C05.vo"]
     consts = []
     anchors = ANCHORS
@@ -256,8 +256,8 @@ class Spec(PropSpec):
         "during Sim::crash) fall back to the wall clock and are outside the model",
         "theorems about consistency are for histories whose steps did not return a software error (finding FailedStepClocks)",
     ]
-    partial_note = ("the tokio side (which offsets occur, when timers fire) is an assumed environment model; timer exactness is proved "
-                    "as core lockstep theorem + TokioClock lemma, composed by tags in the correspondence")
+    partial_note = ("the tokio side (which offsets occur, when timers fire) is an assumed environment model (TokioClock.v), validated by "
+                    "correspondence only; the composed timer-exactness theorem is stated for the main future of scripted software")
 
     def gen_cases(self, ctx):
         n = 300 if ctx.tier == "quick" else 3000
